@@ -168,6 +168,7 @@ PROPS = {
     },
     "C08": {
         "level": "exploration",
+        "technique": "runtime monitoring: the real zone tree answered over six construction histories, compared per query with an executable RFC 1034/4592 lookup model",
         "features": ["crypto", "hooks"],
         "stages": [
             {"mode": "native", "cpu_budget": 60},
@@ -185,6 +186,7 @@ PROPS = {
     },
     "C09": {
         "level": "exploration",
+        "technique": "runtime monitoring: recorded reader/writer histories with unique stamps checked against a sequential model, version-bookkeeping invariant hook (verif-hooks) at quiescent points, real-thread stress with injected pauses under ThreadSanitizer and Miri",
         "features": ["crypto", "hooks"],
         "stages": [
             {"mode": "native", "cpu_budget": 120},
@@ -204,6 +206,7 @@ PROPS = {
     },
     "C13": {
         "level": "exploration",
+        "technique": "runtime monitoring: generated chains compared field by field with an independent chain model; NSEC3 hashes recomputed offline with Python hashlib",
         "features": ["crypto", "hooks"],
         "stages": [
             {"mode": "native", "cpu_budget": 120},
@@ -223,6 +226,7 @@ PROPS = {
     },
     "C10": {
         "level": "exploration",
+        "technique": "runtime monitoring: end-to-end transfers through the real XFR middleware, interpreter and updater with a reference framing machine, reader sampling after every update, fault injection on the message stream",
         "features": ["crypto", "hooks"],
         "stages": [
             {"mode": "native", "cpu_budget": 240},
@@ -247,6 +251,7 @@ PROPS = {
     },
     "C11": {
         "level": "exploration",
+        "technique": "runtime monitoring: differential against an independent RFC 8945 signer/verifier over every single-bit and structural mutation; offline recomputation of every logged MAC with Python hmac",
         "features": ["crypto", "hooks"],
         "stages": [
             {"mode": "native", "cpu_budget": 300},
@@ -271,6 +276,7 @@ PROPS = {
     },
     "C12": {
         "level": "exploration",
+        "technique": "runtime monitoring: observation hook at the SignRaw boundary (octets handed to the key) compared with a reference RFC 4034 construction; verify-after-transform and alteration oracles; offline Python check of key tags and DS digests",
         "features": ["crypto", "hooks"],
         "stages": [
             {"mode": "native", "cpu_budget": 300},
@@ -292,6 +298,7 @@ PROPS = {
     },
     "C14": {
         "level": "exploration",
+        "technique": "runtime monitoring: the validator run against a mock upstream serving a hierarchy signed at run time, with fault injection on answers and upstream and ground truth by construction",
         "features": ["crypto", "hooks"],
         "stages": [
             {"mode": "native", "cpu_budget": 400},
@@ -318,6 +325,7 @@ PROPS = {
     },
     "C15": {
         "level": "exploration",
+        "technique": "runtime monitoring: client transports over mock sockets/streams under the paused tokio clock (real time for the plain stream transport), scripted hostile peer, oracle over the caller's results joined with the peer's event log; ThreadSanitizer stage",
         "features": ["crypto", "hooks"],
         "stages": [
             {"mode": "native", "cpu_budget": 400},
@@ -340,6 +348,7 @@ PROPS = {
     },
     "C16": {
         "level": "exploration",
+        "technique": "runtime monitoring: server transports over a mock datagram socket and listener under the paused tokio clock, oracle over every octet the server writes, liveness and panic monitors",
         "features": ["crypto", "hooks"],
         "stages": [
             {"mode": "native", "cpu_budget": 400},
@@ -362,6 +371,7 @@ PROPS = {
     },
     "C20": {
         "level": "exploration",
+        "technique": "runtime monitoring: query histories under the paused tokio clock against a mock upstream whose responses carry unique markers; freshness / flag-compatibility / TTL-ageing oracle per served response",
         "features": ["crypto", "hooks"],
         "stages": [
             {"mode": "native", "cpu_budget": 400},
